@@ -59,9 +59,12 @@ def c13(ctx, t0):
     res = []
     if want(ctx, 'codec'):
         res.append(ctx.run_child('codec', [hx, 'c13'], T(ctx, 300, 2400)))
+    if want(ctx, 'pam-encoder'):
+        ctx.build_pamh()
+        res.append(ctx.run_child('pam-encoder', [hx, 'c13pam'], T(ctx, 300, 1200)))
     floors = {'roundtrips': (counters(res, 'roundtrips'), 400), 'over_limit_encodes': (counters(res, 'over_limit_encodes'), 100),
               'fragmented_decodes': (counters(res, 'fragmented_decodes'), 2000), 'valid_requests': (counters(res, 'valid_requests'), 20),
-              'corpus_files': (counters(res, 'corpus_files'), 5)}
+              'corpus_files': (counters(res, 'corpus_files'), 5), 'encoder_comparisons': (counters(res, 'encoder_comparisons'), 50)}
     return finish(ctx, 'exploration', res, COMMON_ASSUME + ['reference codec go/ref/wire.go is the oracle', 'zero-length reads are limited to 3 consecutive (bufio.Scanner gives up after 100, which is stdlib behaviour)'], floors, t0)
 
 
@@ -275,3 +278,19 @@ def c16(ctx, t0):
     return finish(ctx, 'exploration', res, COMMON_ASSUME + [
         'reference predicate in go/hx/c16.go with the sandwich rule for "holds a supported hash" (records without trailing newline are borderline)',
         'directories are built from valid user names only (the quantifier of the property); names outside the grammar belong to C03'], floors, t0)
+
+
+@plan('C20')
+def c20(ctx, t0):
+    ctx.build_pamh()
+    hx = ctx.build_hx()
+    res = []
+    if want(ctx, 'module'):
+        res.append(ctx.run_child('module', [hx, 'c20'], T(ctx, 600, 3000)))
+    floors = {'expected_success': (counters(res, 'expected_success'), 50), 'expected_failure': (counters(res, 'expected_failure'), 150),
+              'requests_compared': (counters(res, 'requests_compared'), 100), 'class:reply-cut': (counters(res, 'class:reply-cut'), 20)}
+    return finish(ctx, 'exploration', res, COMMON_ASSUME + [
+        'the module is compiled unmodified against ~40 lines of stub PAM headers (no libpam in the image); the stub runtime implements pam_get_user/get_item/set_item/prompt/vsyslog',
+        'a clean ASan/UBSan run over the generated server behaviours is not a proof of memory safety (red-zone tools miss intra-object and far overflows)',
+        'bounded time is decided logically (every socket read/write preceded by a finite-timeout select that reported readiness; select count bounded by bytes transferred); timing cases assert only when the server record is clearly on one side of the timeout',
+        'descriptor numbers >= FD_SETSIZE are outside the property quantifier'], floors, t0)
